@@ -210,11 +210,19 @@ def live_tree(c, rng, ext_types):
                 hot += [sub + "/index.html", sub + "/live.html"]
             version = 0
             steps = 40 if c.quick else 150
-            for step in range(steps):
+            # a fixed prologue (every special file is rewritten, deleted, re-created ... in turn), then random edits
+            script = []
+            for sp in ["/404.html", "/index.html"] + ([sub + "/index.html"] if sub else []) + regular[:1] + ["/style.css"]:
+                for k in ("rewrite-same-length", "rewrite-same-length", "delete", "create", "rewrite-other-length", "rewrite-same-length-same-mtime", "delete"):
+                    script.append((sp, k))
+            for step in range(len(script) + steps):
                 # --- one edit of the tree
-                p = rng.choice(hot)
+                if step < len(script):
+                    p, kind = script[step]
+                else:
+                    p = rng.choice(hot)
+                    kind = rng.choice(["rewrite-same-length", "rewrite-same-length", "rewrite-same-length-same-mtime", "rewrite-other-length", "delete", "create", "touch"])
                 ap = t.abs(p)
-                kind = rng.choice(["rewrite-same-length", "rewrite-same-length", "rewrite-same-length-same-mtime", "rewrite-other-length", "delete", "create", "touch"])
                 exists = os.path.isfile(ap) and not os.path.islink(ap)
                 version += 1
                 if not exists and kind != "create":
